@@ -73,7 +73,7 @@ def case_strategy(draw, tier):
         prev, ptop = 'S', ['main']
         for j in range(k):
             last = j == k - 1
-            tops = ['main'] if draw(st.booleans()) else draw(st.sampled_from([['main', 'aux'], ['out'], ['main', '_hid']]))
+            tops = ['main'] if draw(st.booleans()) else draw(st.sampled_from([['main', 'aux'], ['out'], ['main', '_hid'], ['main2', 'main'], ['mainframe', 'main', 'mai']]))    # also names that are prefixes of each other
             beh = {'kind': 'sink', 'work': draw(st.lists(WORK, min_size=1, max_size=2))} if last else draw(behaviour(n, True, tops))
             nodes.append({'id': f'F{j}', 'beh': beh, 'start': start(), 'srcs': [{'from': prev, 'sub': draw(sub_for(ptop))}], 'nout': 0 if last else 1})
             prev, ptop = f'F{j}', beh.get('topics', ['main'])
@@ -101,6 +101,8 @@ def case_strategy(draw, tier):
             root = 'X'
         for j in range(nb):
             tops = [['main'], ['other'], ['third']][j] + (['x%d' % j] if draw(st.booleans()) else [])
+            if draw(st.integers(0, 3)) == 0:
+                tops = [tops[0] + '2'] + tops       # a sibling topic whose name starts with the subscribed one, published first
             beh = draw(behaviour(n, False, tops))        # no skipping on a branch that is rejoined
             if beh['ret'] in ('frame', 'callable_frame') and j > 0:
                 beh['ret'], beh['topics'] = 'dict', tops  # a lone Frame is always published as 'main': only one branch may do that
